@@ -57,7 +57,9 @@ CONFIG = dict(
          "a client closing while bursts for it are under way, a client that STOPS READING while > 10000 messages plus the response are issued towards it "
          "(the session's writer blocks in conn.Write, chSend (9999) fills, the front's goroutine blocks in pushToSend - front-local issuer: inside the handler, "
          "back-end issuer: inside its mailbox run) with a second client that keeps reading, then reads again (two such cases in the deterministic sweep of "
-         "every run + random ones); runs with GOMAXPROCS 8 and 1. Each op runs to quiescence (synctest.Wait) and reports the issue logs (per worker in Post "
+         "every run + random ones); a write on a client's connection failing with a timeout net.Error (1-3 times in a row, optionally after half the packet) while later packets are "
+         "queued behind it (the session must end or go on in order; the model closes the connection once the client's stream is consumed); "
+         "runs with GOMAXPROCS 8 and 1. Each op runs to quiescence (synctest.Wait) and reports the issue logs (per worker in Post "
          "order, per service goroutine in execution order) and per client the arrival stream; corpus (the D8 witness) first. Non-trivial = an op that "
          "produced issue or arrival records; distinct = distinct (op, observation) pairs.",
     trusted_base=[
